@@ -313,6 +313,15 @@ impl<'a, R: RealNumberInternalTrait> Interpreter<'a, R> {
                 ));
             }
             match procedure {
+                // a builtin that ends in a call (apply) hands the call back to this loop
+                Procedure::Builtin(BuiltinProcedure {
+                    body: BuiltinProcedureBody::TailCall(delegate),
+                    ..
+                }) => {
+                    let (next_procedure, next_args) = delegate(args)?;
+                    current_procedure = Some(next_procedure);
+                    args = next_args;
+                }
                 Procedure::Builtin(BuiltinProcedure { body, .. }) => {
                     break body.apply(args, env);
                 }
